@@ -1,6 +1,6 @@
 (* C12 proofs, part B: every ThrottleList method preserves the invariant; accounting of held quota. *)
 From Coq Require Import List NArith Bool Lia PeanoNat.
-From LTV.C12 Require Import ParamsGen.
+From LTV.C12 Require Import ParamsGen PolicyGen.
 From LTV.C12 Require Import Model ProofsA.
 Import ListNotations.
 Local Open Scope N_scope.
